@@ -53,7 +53,7 @@ fn spec(u: &mut Unstructured) -> arbitrary::Result<FrameSpec> {
         window_desc: u.int_in_range(0..=0x67)?,
         fcs_bytes: [0u8, 1, 2, 4, 8][u.int_in_range(0..=4)? as usize],
         checksum: u.arbitrary()?,
-        dict_id_bytes: 0,
+        dict_id_bytes: 0, zero_dict_id: false,
         blocks,
     })
 }
@@ -85,7 +85,7 @@ fuzz_target!(|data: &[u8]| {
         2 => Entry::FromTo { chunk: 1 + n as u32, target: 4096 },
         _ => Entry::DecodeAll { target: 200_000 },
     };
-    if let Err(e) = drive_and_reuse(&bytes, &entry, None, None) {
+    if let Err(e) = drive_and_reuse(&bytes, &entry, None, None, n & 0x8000 != 0) {
         panic!("C03: {e}");
     }
 });
